@@ -389,6 +389,12 @@ def run_case(exe, spec, chunks, cols=80, rows=24, raw_initial=False, probe=None,
                     if any(l.startswith("R ") for l in s.obs) or s._exited():
                         break
                     time.sleep(0.0005)
+            elif s.alive and not s._exited():
+                # the key has reached the keymap: once the child blocks again its command is done. Count terminal
+                # bytes from here (whatever else it read meanwhile -- a database, the message pipe -- is forgotten)
+                s.rebase()
+                statuses[-1] = s.wait_quiet()
+                s.rebase()
         for ev in (events or {}).get(k, []):
             if not s.alive:
                 break
